@@ -1,5 +1,235 @@
 import QModel.Core
-/-! C09 — model (not built yet) -/
+/-!
+# C09 — linear estimation (model of quara/protocol/qtomography/standard/linear_estimator.py,
+`StandardQTomographyEstimationResult.estimated_var(_sequence)`, `is_fullrank_matA`)
+
+`LinearEstimator.calc_estimate_sequence` as it is coded:
+
+```
+if not qtomography.is_fullrank_matA(): raise Exception      -- size == rank, size = min(matA.shape)
+A = calc_matA(); b = calc_vecB()
+A_ddag = np.linalg.inv(A.T @ A) @ A.T
+for empi_dists in empi_dists_sequence:
+    f = np.vstack([e[1] for e in empi_dists]).flatten()      -- counts e[0] are not read
+    v = A_ddag @ (f - b)
+```
+
+The two numpy kernels are parameters of the model: `rank` is the value of `np.linalg.matrix_rank(A)`,
+`G` is the value of `np.linalg.inv(A.T @ A)`; their contracts are hypotheses of the theorems
+(`G · (AᵀA) = 1`).  Everything else is executed exactly.  `np.vstack` of arrays of different lengths
+raises (`Err.ragged`) — this is how the code behaves when schedules have different outcome counts.
+-/
 namespace QM.C09
-def handle (_args : List String) : Option String := none
+
+inductive Err
+  | notFullRank   -- `raise Exception` at the guard
+  | emptyData     -- np.vstack([]) : ValueError (need at least one array)
+  | ragged        -- np.vstack of arrays with different lengths : ValueError
+  | shape         -- `f - b` : operands could not be broadcast together
+  | index         -- `_estimated_var_sequence[0]` on an empty sequence : IndexError
+deriving Repr, DecidableEq
+
+def Err.toString : Err → String
+  | .notFullRank => "notFullRank" | .emptyData => "emptyData" | .ragged => "ragged"
+  | .shape => "shape" | .index => "index"
+
+variable {K : Type} {m n : Nat}
+
+/-- `is_fullrank_matA`: `size == rank` with `size = min(matA.shape)`; `rank` is numpy's `matrix_rank`. -/
+def isFullRank (m n rank : Nat) : Bool := min m n == rank
+
+/-- `A_ddag = np.linalg.inv(A.T @ A) @ A.T`, `G` being the value numpy returned for the inverse. -/
+def aDdag [Add K] [Mul K] [Zero K] (G : Mat K n n) (A : Mat K m n) : Mat K n m :=
+  G.mul A.transpose
+
+/-- `np.vstack(arrays).flatten()` for 1-D arrays. -/
+def vstackFlatten (arrs : List (List K)) : Except Err (List K) :=
+  match arrs with
+  | [] => .error .emptyData
+  | p :: rest =>
+    if rest.all (fun a => a.length == p.length) then .ok (p :: rest).flatten else .error .ragged
+
+/-- the operand `f` of `f - b` (`b` has length `m`): same length, or a length-1 array (numpy broadcasts it). -/
+def toDataVec (m : Nat) (f : List K) : Except Err (Vec K m) :=
+  if h : f.length = m then .ok ⟨f.toArray, by simp [h]⟩
+  else match f with
+    | [x] => .ok (Vec.ofFn fun _ => x)
+    | _ => .error .shape
+
+/-- `v = A_ddag @ (f - b)` -/
+def estOne [Add K] [Mul K] [Sub K] [Zero K] (Ad : Mat K n m) (b f : Vec K m) : Vec K n :=
+  Ad.mulVec (f.sub b)
+
+/-- loop body: one dataset `[(count, dist), …]` -/
+def estData [Add K] [Mul K] [Sub K] [Zero K] (Ad : Mat K n m) (b : Vec K m)
+    (ds : List (Nat × List K)) : Except Err (Vec K n) := do
+  let flat ← vstackFlatten (ds.map (·.2))
+  let f ← toDataVec m flat
+  pure (estOne Ad b f)
+
+/-- `calc_estimate_sequence(...).estimated_var_sequence` -/
+def estSeq [Add K] [Mul K] [Sub K] [Zero K] (rank : Nat) (G : Mat K n n) (A : Mat K m n) (b : Vec K m)
+    (dss : List (List (Nat × List K))) : Except Err (List (Vec K n)) :=
+  if !isFullRank m n rank then .error .notFullRank
+  else dss.mapM (estData (aDdag G A) b)
+
+/-- `calc_estimate(...).estimated_var` = `calc_estimate_sequence(qt, [empi_dists]).estimated_var_sequence[0]` -/
+def estimate [Add K] [Mul K] [Sub K] [Zero K] (rank : Nat) (G : Mat K n n) (A : Mat K m n) (b : Vec K m)
+    (ds : List (Nat × List K)) : Except Err (Vec K n) := do
+  let vs ← estSeq rank G A b [ds]
+  match vs with
+  | v :: _ => pure v
+  | [] => .error .index
+
+/-- same value with the product associated to the right (`G · (Aᵀ · (f − b))`): what the driver runs for
+large shapes; equal to `estOne (aDdag G A) b f` by `QM.C09.estOne_fast` (QProps). -/
+def estOneFast [Add K] [Mul K] [Sub K] [Zero K] (G : Mat K n n) (A : Mat K m n) (b f : Vec K m) : Vec K n :=
+  G.mulVec (A.transpose.mulVec (f.sub b))
+
+/-! ## verified checker for an alleged least-squares solution -/
+
+/-- prediction residual `A v + b − f` -/
+def residual [Add K] [Mul K] [Sub K] [Zero K] (A : Mat K m n) (b f : Vec K m) (v : Vec K n) : Vec K m :=
+  ((A.mulVec v).add b).sub f
+
+/-- residual of the normal equations `Aᵀ (A v + b − f)` -/
+def normalResidual [Add K] [Mul K] [Sub K] [Zero K] (A : Mat K m n) (b f : Vec K m) (v : Vec K n) :
+    Vec K n :=
+  A.transpose.mulVec (residual A b f v)
+
+/-- `lsqCert A b f v tol`: every component of `Aᵀ(Av+b−f)` lies in `[-tol, tol]` (evaluated exactly). -/
+def lsqCert [Add K] [Mul K] [Sub K] [Neg K] [Zero K] [LE K] [DecidableLE K]
+    (A : Mat K m n) (b f : Vec K m) (v : Vec K n) (tol : K) : Bool :=
+  (List.finRange n).all fun i =>
+    decide (-tol ≤ (normalResidual A b f v).get i) && decide ((normalResidual A b f v).get i ≤ tol)
+
+/-! ## exact solution of the normal equations over ℚ (Gauss–Jordan, validated by substitution) -/
+
+/-- `row − c • p` -/
+def rowSubMul (row p : List Rat) (c : Rat) : List Rat := List.zipWith (fun a x => a - c * x) row p
+
+/-- eliminate column `c` from `row` with the normalised pivot row `p` -/
+def elimRow (c : Nat) (p row : List Rat) : Option (List Rat) := do
+  let x ← row[c]?
+  pure (if x = 0 then row else rowSubMul row p x)
+
+/-- Gauss–Jordan on augmented rows; `done` holds the rows already pivoted (row i has its pivot in
+column i), `rest` the others. `fuel` = number of columns still to treat. -/
+def gaussLoop : Nat → Nat → List (List Rat) → List (List Rat) → Option (List (List Rat))
+  | 0, _, done, _ => some done
+  | fuel + 1, c, done, rest => do
+    let idx ← rest.findIdx? (fun r => match (r[c]? : Option Rat) with | some x => decide (x ≠ 0) | none => false)
+    let r ← rest[idx]?
+    let piv ← r[c]?
+    let p := r.map (· / piv)
+    let rest' ← (rest.eraseIdx idx).mapM (elimRow c p)
+    let done' ← done.mapM (elimRow c p)
+    gaussLoop fuel (c + 1) (done' ++ [p]) rest'
+
+/-- solve `M x = y` exactly; `none` when a pivot is missing (singular) **or** when the candidate fails the
+final substitution check — so a returned `x` always satisfies `M x = y` (`solveChecked_sound`). -/
+def solveChecked (M : Mat Rat n n) (y : Vec Rat n) : Option (Vec Rat n) := do
+  let rows := (List.finRange n).map fun i => (M[i]).toList ++ [y.get i]
+  let red ← gaussLoop n 0 [] rows
+  let xs ← red.mapM (fun r => r[n]?)
+  if h : xs.length = n then
+    let x : Vec Rat n := ⟨xs.toArray, by simp [h]⟩
+    if M.mulVec x = y then some x else none
+  else none
+
+/-- exact least-squares solution of `A v + b ≈ f` through the normal equations `(AᵀA) v = Aᵀ(f − b)` -/
+def lsqExact (A : Mat Rat m n) (b f : Vec Rat m) : Option (Vec Rat n) :=
+  solveChecked (A.transpose.mul A) (A.transpose.mulVec (f.sub b))
+
+/-! ## driver -/
+
+def parseVec? (n : Nat) (s : String) : Option (Vec Rat n) := do
+  let l ← parseList? parseRat? s
+  if h : l.length = n then some ⟨l.toArray, by simp [h]⟩ else none
+
+/-- row-major `m*n` rationals -/
+def parseMat? (m n : Nat) (s : String) : Option (Mat Rat m n) := do
+  let l ← parseList? parseRat? s
+  if l.length = m * n then
+    let a := l.toArray
+    let rows := (List.finRange m).mapM fun i => parseRow a i.val
+    match rows with
+    | some rs => if h : rs.length = m then some ⟨rs.toArray, by simp [h]⟩ else none
+    | none => none
+  else none
+where
+  parseRow (a : Array Rat) (i : Nat) : Option (Vec Rat n) :=
+    let r := (a.extract (i * n) (i * n + n))
+    if h : r.size = n then some ⟨r, h⟩ else none
+
+def showVec (v : Vec Rat n) : String := showList showRat v.toList
+
+/-- dataset text: distributions separated by `;`, each `count:p0,p1,…` -/
+def parseDataset? (s : String) : Option (List (Nat × List Rat)) :=
+  if s = "-" then some [] else
+  (s.splitOn ";").mapM fun t =>
+    match t.splitOn ":" with
+    | [c, ps] => do
+        let c ← parseNat? c
+        let ps ← parseList? parseRat? ps
+        some (c, ps)
+    | _ => none
+
+/-- sequence text: datasets separated by `|` -/
+def parseSeq? (s : String) : Option (List (List (Nat × List Rat))) :=
+  if s = "_" then some [] else (s.splitOn "|").mapM parseDataset?
+
+def showSeq (r : Except Err (List (Vec Rat n))) : String :=
+  match r with
+  | .error e => s!"err {e.toString}"
+  | .ok vs => "ok " ++ (if vs.isEmpty then "_" else "|".intercalate (vs.map showVec))
+
+/-- several vectors of length `n` separated by `;` -/
+def parseVecs? (n : Nat) (s : String) : Option (List (Vec Rat n)) :=
+  if s = "_" then some [] else (s.splitOn ";").mapM (parseVec? n)
+
+def showVecs (vs : List (Vec Rat n)) : String :=
+  if vs.isEmpty then "_" else "|".intercalate (vs.map showVec)
+
+def handle (args : List String) : Option String :=
+  match args with
+  | ["fullrank", m, n, rank] => do
+      let m ← parseNat? m; let n ← parseNat? n; let rank ← parseNat? rank
+      some (toString (isFullRank m n rank))
+  -- the coded sequence estimate: estseq m n rank G A b seq
+  | ["estseq", m, n, rank, G, A, b, seq] => do
+      let m ← parseNat? m; let n ← parseNat? n; let rank ← parseNat? rank
+      let G ← parseMat? n n G; let A ← parseMat? m n A; let b ← parseVec? m b
+      let seq ← parseSeq? seq
+      some (showSeq (estSeq rank G A b seq))
+  | ["est", m, n, rank, G, A, b, ds] => do
+      let m ← parseNat? m; let n ← parseNat? n; let rank ← parseNat? rank
+      let G ← parseMat? n n G; let A ← parseMat? m n A; let b ← parseVec? m b
+      let ds ← parseDataset? ds
+      match estimate rank G A b ds with
+      | .ok v => some s!"ok {showVec v}"
+      | .error e => some s!"err {e.toString}"
+  -- right-associated product on flat data vectors (large shapes)
+  | ["estfast", m, n, G, A, b, fs] => do
+      let m ← parseNat? m; let n ← parseNat? n
+      let G ← parseMat? n n G; let A ← parseMat? m n A; let b ← parseVec? m b
+      let fs ← parseVecs? m fs
+      some s!"ok {showVecs (fs.map (estOneFast G A b))}"
+  -- verified checker on the implementation's outputs: cert m n A b tol fs vs
+  | ["cert", m, n, A, b, tol, fs, vs] => do
+      let m ← parseNat? m; let n ← parseNat? n
+      let A ← parseMat? m n A; let b ← parseVec? m b
+      let tol ← parseRat? tol
+      let fs ← parseVecs? m fs; let vs ← parseVecs? n vs
+      if fs.length ≠ vs.length then none
+      else some (showList toString ((fs.zip vs).map fun (f, v) => lsqCert A b f v tol))
+  | ["lsqexact", m, n, A, b, fs] => do
+      let m ← parseNat? m; let n ← parseNat? n
+      let A ← parseMat? m n A; let b ← parseVec? m b
+      let fs ← parseVecs? m fs
+      match fs.mapM (lsqExact A b) with
+      | some vs => some s!"ok {showVecs vs}"
+      | none => some "singular"
+  | _ => none
+
 end QM.C09
